@@ -160,6 +160,16 @@ class CRunner:
             c = max(d.wsconns) if d.wsconns else 9999
             d.ws_srv_close(c)
             term = '(OpWsClose %s)' % qN(c)
+        elif k == 'wsframeclose':
+            c = max(d.wsconns) if d.wsconns else 9999
+            f = op[1]
+            if f[0] == 'pk':
+                d.ws_frame_close(c, spk_wire(f[1]))
+                t = '(FrPk %s)' % spk_term(f[1])
+            else:
+                d.ws_frame_close(c, 'x-garbage')
+                t = 'FrGarbage'
+            term = '(OpWsFrameClose %s %s)' % (qN(c), t)
         elif k == 'adv':
             d.advance(op[1])
             term = '(OpAdvance %s)' % qZ(op[1])
@@ -325,11 +335,11 @@ def gen_history(rng, length=20):
         elif r < 0.62:
             k = rng.random()
             if k < 0.3:
-                ops.append(('wsframe', ('pk', ('pongprobe',))))
+                ops.append((('wsframe' if rng.random() < 0.85 else 'wsframeclose'), ('pk', ('pongprobe',))))
             elif k < 0.4:
                 ops.append(('wsframe', ('pk', ('open', rng.random() < 0.9, False, I, T))))
             elif k < 0.93:
-                ops.append(('wsframe', ('pk', srv_pkts(1)[0])))
+                ops.append((('wsframe' if rng.random() < 0.92 else 'wsframeclose'), ('pk', srv_pkts(1)[0])))
             else:
                 ops.append(('wsframe', ('garbage',)))
         elif r < 0.66:
@@ -432,11 +442,11 @@ def gen_adaptive(rng, r, length=30):
                 if wsup or (d.wsconns and rng.random() < 0.6):
                     k = rng.random()
                     if k < 0.25 and not wsup:
-                        do(('wsframe', ('pk', ('pongprobe',))))
+                        do((('wsframe' if rng.random() < 0.85 else 'wsframeclose'), ('pk', ('pongprobe',))))
                     elif k < 0.32 and not wsup:
                         do(('wsframe', ('pk', ('open', rng.random() < 0.9, False, I, T))))
                     elif k < 0.95:
-                        do(('wsframe', ('pk', pkts(1)[0])))
+                        do((('wsframe' if rng.random() < 0.92 else 'wsframeclose'), ('pk', pkts(1)[0])))
                     elif k < 0.98:
                         do(('wsframe', ('garbage',)))
                     else:
